@@ -149,8 +149,9 @@ def main(argv=None):
         "wall_s": round(time.time() - t0, 2),
         "violations": len(new_fail),
     }
-    os.makedirs(os.path.join(ROOT, "evidence"), exist_ok=True)
-    with open(os.path.join(ROOT, "evidence", pid + ".json"), "w") as f:
+    evdir = os.environ.get("VF_EVIDENCE_DIR") or os.path.join(ROOT, "evidence")
+    os.makedirs(evdir, exist_ok=True)
+    with open(os.path.join(evdir, pid + ".json"), "w") as f:
         json.dump(ev, f, indent=1)
         f.write("\n")
 
@@ -162,8 +163,9 @@ def main(argv=None):
     print("%s tier=%s units=%s obligations=%d discharged=%d functions_under_contract=%d wall=%.1fs" % (
         pid, tier, ",".join(units), obligations, discharged, coverage["functions_proved"], ev["wall_s"]))
     if status == "violation":
-        os.makedirs(os.path.join(ROOT, "replays"), exist_ok=True)
-        rp = os.path.join(ROOT, "replays", "%s-%d.txt" % (pid, int(time.time())))
+        rpdir = os.path.join(os.environ["VF_EVIDENCE_DIR"], "replays") if os.environ.get("VF_EVIDENCE_DIR") else os.path.join(ROOT, "replays")
+        os.makedirs(rpdir, exist_ok=True)
+        rp = os.path.join(rpdir, "%s-%d.txt" % (pid, int(time.time())))
         found_input = False
         with open(rp, "w") as f:
             f.write("property %s: failed obligations (the contract is discharged on the unchanged tree)\n\n" % pid)
